@@ -44,20 +44,56 @@ def norm_tokens(t):
     return tuple(out)
 
 
+def items_of(toks):
+    """token tuple -> item list: one item per literal character, one per symbol (symbols hold neither '.' nor '/')"""
+    out = []
+    for t in toks:
+        if t.startswith("$"):
+            out.append(t)
+        else:
+            out.extend(t)
+    return out
+
+
+def tokens_of(items):
+    return norm_tokens(tuple(items))
+
+
 def split_name(name):
-    """(stem tokens, suffix string) of a name token tuple, pathlib rule: last '.ext' of the final component"""
-    n = norm_tokens(name)
-    if not n:
-        return (), ""
-    last = n[-1]
-    if last == "$X":
-        return n[:-1], "$X"
-    if not last.startswith("$"):
-        m = re.search(r"(\.[^./]+)$", last)
-        if m and (len(n) > 1 or m.start() > 0):
-            rest = last[:m.start()]
-            return n[:-1] + ((rest,) if rest else ()), m.group(1)
-    return n, ""
+    """(stem tokens, suffix string) of a name token tuple, pathlib rule: from the last '.' of the final component,
+    unless that dot leads or ends the name"""
+    it = items_of(norm_tokens(name))
+    if "/" in it:
+        raise KeyError("name with a directory separator")
+    idx = [k for k, x in enumerate(it) if x == "."]
+    if idx and 0 < idx[-1] < len(it) - 1:
+        suf = tokens_of(it[idx[-1]:])
+        return tokens_of(it[:idx[-1]]), ("".join(suf) if len(suf) == 1 and not suf[0].startswith("$") else suf)
+    return tokens_of(it), ""
+
+
+def suffix_tokens(suf):
+    return (suf,) if isinstance(suf, str) else tuple(suf)
+
+
+def all_suffixes(name):
+    """pathlib's .suffixes over items"""
+    it = items_of(norm_tokens(name))
+    if it and it[-1] == ".":
+        return []
+    k = 0
+    while k < len(it) and it[k] == ".":
+        k += 1
+    body = it[k:]
+    parts, cur = [], []
+    for x in body:
+        if x == ".":
+            parts.append(cur)
+            cur = []
+        else:
+            cur.append(x)
+    parts.append(cur)
+    return [tokens_of(["."] + p_) for p_ in parts[1:]]
 
 
 class PathEval:
@@ -95,7 +131,7 @@ class PathEval:
             if e.attr == "stem":
                 return ("str", stem)
             if e.attr == "suffix":
-                return ("str", (suf,))
+                return ("str", suffix_tokens(suf))
             raise KeyError(f"path attribute {e.attr}")
         if isinstance(e, ast.BinOp) and isinstance(e.op, ast.Div):
             a, b = self.ev(e.left), self.ev(e.right)
@@ -134,6 +170,43 @@ class PathEval:
         return norm_tokens(self.subst(toks))
 
 
+def len_of(v, pe):
+    """length of a string value as a multiset: literal characters under '' and one entry per symbol"""
+    if v[0] != "str":
+        raise KeyError("len of a non-string")
+    out = {}
+    for x in items_of(pe.concrete(v[1])):
+        k = x if x.startswith("$") else ""
+        out[k] = out.get(k, 0) + 1
+    return out
+
+
+def slice_len(it, k):
+    """number of leading items of `it` selected by s[:k]; k is a length multiset (negative total = counted from the end).
+    Decided only when k, or len(it)+k, is the length of a prefix of `it`"""
+    def count(xs):
+        out = {}
+        for x in xs:
+            kk = x if x.startswith("$") else ""
+            out[kk] = out.get(kk, 0) + 1
+        return out
+    k = {a: b for a, b in k.items() if b}
+    if not k:
+        return 0
+    if all(v > 0 for v in k.values()):
+        for n in range(len(it) + 1):
+            if count(it[:n]) == k:
+                return n
+        return None
+    if all(v < 0 for v in k.values()):
+        neg = {a: -b for a, b in k.items()}
+        for n in range(len(it) + 1):
+            if count(it[n:]) == neg:
+                return n
+        return None
+    return None
+
+
 def find_assign(fn, name, pred=None):
     out = []
     for n in ast.walk(fn):
@@ -167,89 +240,319 @@ def run(rep):
     rep.unit(f"{rel}: write_csv, read_csv, _check_name, _csvhead, _header2comment, write2zip")
 
     # ---------------- R09.a -------------------------------------------------------------------------------------
-    # writer expressions
-    wz = find_assign(w, "filename_full", lambda n: under_test(n, "compress"))
-    wm = find_assign(w, "arcname", lambda n: under_test(n, "compress") and isinstance(getattr(n, "_parent", None), ast.If)
-                     and ast.unparse(n._parent.test).strip() == "compress")
-    wa = find_assign(w, "arcname", lambda n: not (isinstance(getattr(n, "_parent", None), ast.If) and ast.unparse(n._parent.test).strip() == "compress"))
-    wcond = [n for n in ast.walk(w) if isinstance(n, ast.If) and any(x is wz[0] for x in n.body)] if wz else []
-    rz = [n for n in ast.walk(cn) if isinstance(n, ast.For) and isinstance(n.iter, (ast.List, ast.Tuple))]
-    rc = find_assign(cn, "filename_full") if rz else []
-    rm = find_assign(r, "fcsv")
-    ra = [n for n in ast.walk(r) if isinstance(n, ast.Call) and isinstance(n.func, ast.Attribute) and n.func.attr == "read"
-          and dotted(n.func.value) == "archive"]
-    if not (wz and wm and wa and wcond and rz and rc and rm and ra):
-        raise AnalysisError(f"{rel}: name-building statements not found (writer zip path {len(wz)}, member {len(wm)}/{len(wa)}, "
-                            f"reader loop {len(rz)}, candidate {len(rc)}, member {len(rm)}, archive read {len(ra)})")
-    exts = [const_value(x) for x in rz[0].iter.elts]
-    loopvar = rz[0].target.id
-    early = any(isinstance(n, ast.If) and "exists" in ast.unparse(n.test) and any(isinstance(x, ast.Return) for x in n.body) for n in cn.body)
+    # Both functions are evaluated symbolically (loops over literal lists unrolled); file and member names are then computed in
+    # the token algebra above for every suffix class of the file name, and the reader's existence tests are answered by
+    # "the file exists iff it is the one the writer created".
+    from .. import pq
+    from ..formula import show as _show
+
+    class Scen:
+        def __init__(self, X, compress, archive, written=None, stem=("$S",)):
+            self.X, self.compress, self.archive, self.written, self.stem = X, compress, archive, written, stem
+            self.pe = PathEval({"filename": ("path", SPath(("$P",), tuple(stem) + ("$X",)))}, X)
+
+    def xev(e, sc):
+        pe = sc.pe
+        if e[0] == 'sym':
+            if e[1] == 'filename':
+                return pe.env["filename"]
+            if e[1][:1] in ("'", '"'):
+                return ("str", (e[1][1:-1],))
+            raise KeyError(f"name {e[1]}")
+        if e[0] == 'where':
+            c = xcond(e[1], sc)
+            if c is None:
+                raise KeyError("undecided conditional")
+            return xev(e[2] if c else e[3], sc)
+        if e[0] == 'call' and e[1] in ("f:Path", "f:PurePosixPath", "f:PurePath", "f:pathlib.Path") and len(e[2]) == 1:
+            r = xev(e[2][0], sc)
+            if r[0] == "path":
+                return r
+            raise KeyError("Path() of a string")
+        if e[0] == 'call' and e[1].startswith("attr:") and len(e[2]) == 1:
+            b_ = xev(e[2][0], sc)
+            if b_[0] != "path":
+                raise KeyError("attribute of a non-path")
+            p_ = b_[1]
+            stem, suf = split_name(pe.subst(p_.name))
+            at = e[1][5:]
+            if at == "parent":
+                return ("dir", p_.parent)
+            if at == "name":
+                return ("str", p_.name)
+            if at == "stem":
+                return ("str", stem)
+            if at == "suffix":
+                return ("str", suffix_tokens(suf))
+            if at == "suffixes":
+                return ("strs", all_suffixes(pe.subst(p_.name)))
+            raise KeyError(f"path attribute {at}")
+        if e[0] == 'div':
+            a_, b_ = xev(e[1], sc), xev(e[2], sc)
+            if a_[0] == "dir":
+                return ("path", SPath(a_[1], pe.as_str(b_)))
+            if a_[0] == "path":
+                return ("path", SPath(a_[1].full(), pe.as_str(b_)))
+            raise KeyError("division of a non-path")
+        if e[0] == 'add':
+            return ("str", pe.as_str(xev(e[1], sc)) + pe.as_str(xev(e[2], sc)))
+        if e[0] == 'call' and e[1] == 'fstr':
+            toks = ()
+            for part in e[2]:
+                toks += pe.as_str(xev(part, sc))
+            return ("str", toks)
+        if e[0] == 'call' and e[1] == 'py.str' and len(e[2]) >= 1:
+            return ("str", pe.as_str(xev(e[2][0], sc)))
+        if e[0] == 'call' and e[1] == '.with_suffix' and len(e[2]) == 2:
+            b_ = xev(e[2][0], sc)
+            suf = pe.as_str(xev(e[2][1], sc))
+            stem, _old = split_name(pe.subst(b_[1].name))
+            return ("path", SPath(b_[1].parent, tuple(stem) + tuple(suf)))
+        if e[0] == 'call' and e[1] == '.join' and len(e[2]) == 2:
+            sep, lst = xev(e[2][0], sc), xev(e[2][1], sc)
+            if lst[0] != "strs":
+                raise KeyError("join of a non-list")
+            toks = ()
+            for k, x in enumerate(lst[1]):
+                toks += (pe.as_str(sep) if k else ()) + tuple(x)
+            return ("str", toks)
+        if e[0] == 'call' and e[1] in ('.split', '.rsplit') and len(e[2]) in (2, 3):
+            it = items_of(pe.concrete(pe.as_str(xev(e[2][0], sc))))
+            sep = pe.concrete(pe.as_str(xev(e[2][1], sc)))
+            if len(sep) != 1 or len(sep[0]) != 1 or sep[0].startswith("$"):
+                raise KeyError("split on a non-character")
+            parts, cur = [], []
+            for x in it:
+                if x == sep[0]:
+                    parts.append(cur)
+                    cur = []
+                else:
+                    cur.append(x)
+            parts.append(cur)
+            if len(e[2]) == 3:
+                if e[2][2][0] != 'num':
+                    raise KeyError("split count")
+                n_ = int(e[2][2][1])
+                if e[1] == '.rsplit' and len(parts) > n_ + 1:
+                    head = parts[:len(parts) - n_]
+                    j = []
+                    for k, h in enumerate(head):
+                        j += ([sep[0]] if k else []) + h
+                    parts = [j] + parts[len(parts) - n_:]
+                elif e[1] == '.split' and len(parts) > n_ + 1:
+                    tail = parts[n_:]
+                    j = []
+                    for k, h in enumerate(tail):
+                        j += ([sep[0]] if k else []) + h
+                    parts = parts[:n_] + [j]
+            return ("strs", [tokens_of(p_) for p_ in parts])
+        if e[0] == 'call' and e[1] == '.splitext' and len(e[2]) == 2:
+            toks = pe.concrete(pe.as_str(xev(e[2][1], sc)))
+            it = items_of(toks)
+            base = it[len(it) - it[::-1].index("/"):] if "/" in it else it
+            stem, suf = split_name(tokens_of(base))
+            head = it[:len(it) - len(base)]
+            return ("strs", [tokens_of(head + items_of(stem)), suffix_tokens(suf) if suf != "" else ()])
+        if e[0] == 'call' and e[1] == 'shape' and len(e[2]) == 2 and e[2][1] == ('num', 0):
+            return ("len", len_of(xev(e[2][0], sc), pe))
+        if e[0] == 'neg':
+            a_ = xev(e[1], sc)
+            if a_[0] == "len":
+                return ("len", {k: -v for k, v in a_[1].items()})
+        if e[0] in ('sub', 'add') and True:
+            a_, b_ = xev(e[1], sc), xev(e[2], sc)
+            if a_[0] == "len" and b_[0] == "len":
+                out = dict(a_[1])
+                for k, v in b_[1].items():
+                    out[k] = out.get(k, 0) + (v if e[0] == 'add' else -v)
+                return ("len", {k: v for k, v in out.items() if v})
+            if e[0] == 'add':
+                return ("str", pe.as_str(a_) + pe.as_str(b_))
+        if e[0] == 'num':
+            return ("len", {"": int(e[1])} if e[1] else {})
+        if e[0] == 'call' and e[1] == 'getitem' and len(e[2]) == 2:
+            base, ix = xev(e[2][0], sc), e[2][1]
+            if base[0] == "strs":
+                if ix[0] == 'num' and -len(base[1]) <= int(ix[1]) < len(base[1]):
+                    return ("str", tuple(base[1][int(ix[1])]))
+                raise KeyError("list index")
+            if base[0] == "str" and pq.call_named(ix, "slice") and ix[2][0] == ('sym', 'None') and ix[2][2] == ('sym', 'None'):
+                it = items_of(pe.concrete(base[1]))
+                k = xev(ix[2][1], sc)
+                if k[0] != "len":
+                    raise KeyError("slice bound")
+                n_ = slice_len(it, k[1])
+                if n_ is None:
+                    raise KeyError("slice bound not a prefix length of the string")
+                return ("str", tokens_of(it[:n_]))
+            raise KeyError("subscript")
+        raise KeyError(f"expression {_show(e)[:50]}")
+
+    def xcond(c, sc):
+        if c[0] == 'not':
+            r = xcond(c[1], sc)
+            return None if r is None else not r
+        if c[0] in ('and', 'or'):
+            a_, b_ = xcond(c[1], sc), xcond(c[2], sc)
+            if c[0] == 'and':
+                if a_ is False or b_ is False:
+                    return False
+                return True if (a_ is True and b_ is True) else None
+            if a_ is True or b_ is True:
+                return True
+            return False if (a_ is False and b_ is False) else None
+        if c[0] == 'where':
+            t_ = xcond(c[1], sc)
+            if t_ is None:
+                a_, b_ = xcond(c[2], sc), xcond(c[3], sc)
+                return a_ if a_ == b_ else None
+            return xcond(c[2] if t_ else c[3], sc)
+        if c in (('sym', 'True'), ('sym', 'False')):
+            return c[1] == 'True'
+        if c[0] == 'num':
+            return bool(c[1])
+        if c == ('sym', 'compress'):
+            return sc.compress
+        if c == ('sym', 'archive'):
+            return sc.archive
+        if c[0] == 'call' and c[1] == 'is' and c[2][0] == ('sym', 'archive') and c[2][1] == ('sym', 'None'):
+            return not sc.archive
+        if c[0] == 'cmp' and c[1] in ('==', '!='):
+            try:
+                a_ = sc.pe.concrete(sc.pe.as_str(xev(c[2], sc)))
+                b_ = sc.pe.concrete(sc.pe.as_str(xev(c[3], sc)))
+            except KeyError:
+                return None
+            return (a_ == b_) if c[1] == '==' else (a_ != b_)
+        if c[0] == 'call' and c[1] == '.exists' and sc.written is not None:
+            try:
+                p_ = xev(c[2][0], sc)
+            except KeyError:
+                return None
+            if p_[0] != "path":
+                return None
+            return norm_tokens(sc.pe.subst(p_[1].full())) == sc.written
+        return None
+
+    def consistent(path, sc):
+        for c, t in path.conds:
+            r = xcond(c, sc)
+            if r is not None and r != t:
+                return False
+        return True
+
+    def zip_calls(e):
+        return pq.find(e, lambda x: pq.call_named(x, ".ZipFile") and len(x[2]) >= 2)
+
+    wpe = pq.PEval()
+    wpe.unroll_const = True
+    rpe = pq.PEval()
+    rpe.unroll_const = True
+    rpe.maxpaths = 4000
+    # helpers the normaliser could not inline (several returns) are expanded path-wise at their call sites
+    called = {n.func.id for f in (w, r) for n in ast.walk(f) if isinstance(n, ast.Call) and isinstance(n.func, ast.Name)}
+    helpers = {}
+    for f in mod.tree.body:
+        if isinstance(f, ast.FunctionDef) and f.name in called and f.name.startswith("_"):
+            loops = [n for n in ast.walk(f) if isinstance(n, (ast.While, ast.For)) and not (isinstance(n, ast.For) and isinstance(n.iter, (ast.List, ast.Tuple)))]
+            probe = pq.PEval()
+            probe.unroll_const = True
+            try:
+                small = len(probe.run(f)) <= 12
+            except Exception:
+                small = False
+            if small and not loops:
+                helpers[f.name] = f
+    wpe.inline = rpe.inline = helpers
+    wpaths = wpe.run(w)
+    rpaths = rpe.run(r)
+    cnp = pq.PEval()
+    cnp.unroll_const = True
+    early = any(p_.how == "return" and pq.cond_truth(p_.conds, ('call', '.exists', (p_.value,))) is True for p_ in cnp.run(cn))
     rep.check(early, "R09.a", rel, "_check_name", "an existing file name is used as given", "", line=cn.lineno)
-    nsc = 0
-    for X in SUFFIXES:
-        env = {"filename": ("path", SPath(("$P",), ("$S", "$X")))}
-        pe = PathEval(env, X)
-        sc = f"suffix '{X or '<none>'}', compress=True"
-        try:
-            # writer
-            cond_zip = eval_cond(wcond[0].test, pe, {"compress": True})
-            zpath = pe.ev(wz[0].value)[1] if cond_zip else env["filename"][1]
-            member_w = pe.concrete(pe.as_str(pe.ev(wm[0].value)))
-            # reader resolution
-            found = None
-            if SPath(pe.subst(zpath.parent), pe.subst(zpath.name)) == SPath(("$P",), pe.subst(("$S", "$X"))):
-                found = zpath
-            else:
-                for ext in exts:
-                    pe2 = PathEval(dict(env, **{loopvar: ("str", (ext,))}), X)
-                    cand = pe2.ev(rc[0].value)[1]
-                    if norm_tokens(pe.subst(cand.full())) == norm_tokens(pe.subst(zpath.full())):
-                        found = cand
-                        break
-            nsc += 1
-            if found is None:
-                rep.violation("R09.a", rel, "_check_name", f"{sc}: written file is found",
-                              f"write_csv writes {show(pe.concrete(zpath.full()))} but none of the reader's candidates "
-                              f"({', '.join(exts)}) names it", line=cn.lineno)
-                continue
-            rep.proved("R09.a", rel, "_check_name", f"{sc}: written file is found", show(pe.concrete(zpath.full())), line=cn.lineno)
-            member_r = pe.concrete(pe.as_str(pe.ev(rm[0].value)))
-            rep.check(member_w == member_r, "R09.a", rel, "read_csv", f"{sc}: zip member read == member written",
-                      f"written `{show(member_w)}`, read `{show(member_r)}`", line=rm[0].lineno)
-        except KeyError as ex:
-            rep.undecided("R09.a", rel, "write_csv/read_csv", f"{sc}: name algebra", f"outside the path vocabulary: {ex}", line=w.lineno)
-    # archive mode: member = str(PurePosixPath(filename)) on both sides
-    for X in (".csv", ""):
-        pe = PathEval({"filename": ("path", SPath(("$P",), ("$S", "$X")))}, X)
-        try:
-            mw = pe.concrete(pe.as_str(pe.ev(wa[0].value)))
-            mr = pe.concrete(pe.as_str(pe.ev(ra[0].args[0])))
-            nsc += 1
-            rep.check(mw == mr, "R09.a", rel, "read_csv", f"suffix '{X or '<none>'}', archive mode: member read == member written",
-                      f"written `{show(mw)}`, read `{show(mr)}`", line=ra[0].lineno)
-        except KeyError as ex:
-            rep.undecided("R09.a", rel, "write_csv/read_csv", f"archive mode, suffix '{X}'", str(ex), line=w.lineno)
-    rep.floor("name scenarios evaluated", nsc, 6)
-    # plain mode: the file written is the file name given; archive disables compress
-    arc_off = any(isinstance(n, ast.If) and ast.unparse(n.test).replace(" ", "") in ("archiveisnotNone", "archive") and
-                  any(isinstance(s, ast.Assign) and ast.unparse(s).replace(" ", "") == "compress=False" for s in n.body) for n in ast.walk(w))
-    rep.check(arc_off, "R09.a", rel, "write_csv", "a caller-supplied archive switches compression off", "", line=w.lineno)
-    # sibling agreement: the reader forms candidate names from the same base-name attribute as the writer
-    def stem_exprs(node):
+
+    def written_by(sc):
+        """(zip path tokens | None, member tokens) of every archive write on the paths of write_csv consistent with the scenario"""
         out = set()
-        for n in ast.walk(node):
-            if isinstance(n, ast.JoinedStr):
-                for v in n.values:
-                    if isinstance(v, ast.FormattedValue) and not (isinstance(v.value, ast.Name) and v.value.id == loopvar):
-                        out.add(ast.unparse(v.value))
+        for p_ in wpaths:
+            if p_.how not in ("end", "return") or not consistent(p_, sc):
+                continue
+            for e in p_.effects:
+                if e.kind != 'call' or e.val is None:
+                    continue
+                v = e.val
+                if pq.call_named(v, "f:write2zip") and len(v[2]) == 3:
+                    arch, name = v[2][0], v[2][1]
+                elif pq.call_named(v, ".writestr") and len(v[2]) >= 3:
+                    arch, name = v[2][0], v[2][1]
+                else:
+                    continue
+                zc = zip_calls(arch)
+                zp = norm_tokens(sc.pe.subst(xev(zc[0][2][1], sc)[1].full())) if zc else None
+                out.add((zp, sc.pe.concrete(sc.pe.as_str(xev(name, sc)))))
         return out
-    ws, rs = stem_exprs(wz[0].value), stem_exprs(rc[0].value)
-    rep.check(ws == rs, "R09.a", rel, "_check_name", "reader and writer build '<base>.zip' from the same base name",
-              f"writer uses {sorted(ws)}, reader uses {sorted(rs)}", line=rc[0].lineno)
-    # dispatch on the suffix of the resolved file
-    disp = [n for n in ast.walk(r) if isinstance(n, ast.Compare) and "suffix" in ast.unparse(n.left) and isinstance(n.comparators[0], ast.Constant)]
-    sufs = sorted({n.comparators[0].value for n in disp})
-    rep.check(".zip" in sufs and ".gz" in sufs, "R09.a", rel, "read_csv", "reader dispatches on '.zip' and '.gz'", f"found {sufs}", line=r.lineno)
+
+    def read_by(sc):
+        """(zip path tokens | None, member tokens) of every archive read on the returning paths of read_csv consistent with the scenario"""
+        out = set()
+        raised = 0
+        for p_ in rpaths:
+            if not consistent(p_, sc):
+                continue
+            if p_.how == "raise":
+                raised += 1
+                continue
+            if p_.how != "return":
+                continue
+            pool = [v for v in p_.env.values() if isinstance(v, tuple)] + [e.val for e in p_.effects if e.val is not None]
+            reads = pq.find(('tuple', tuple(pool)), lambda x: pq.call_named(x, ".read") and len(x[2]) == 2)
+            for rd in reads:
+                zc = zip_calls(rd[2][0])
+                zp = norm_tokens(sc.pe.subst(xev(zc[0][2][1], sc)[1].full())) if zc else None
+                if zc or rd[2][0] == ('sym', 'archive'):
+                    out.add((zp, sc.pe.concrete(sc.pe.as_str(xev(rd[2][1], sc)))))
+        return out, raised
+    nsc = 0
+    STEMS = [("$S",), ("$A", ".", "$B")]
+    for X, stem in [(x_, s_) for x_ in SUFFIXES for s_ in STEMS]:
+        sc = Scen(X, True, False, stem=stem)
+        label = f"stem {show(stem)}, suffix '{X or '<none>'}', compress=True"
+        try:
+            wr = written_by(sc)
+            if len(wr) != 1 or next(iter(wr))[0] is None:
+                rep.undecided("R09.a", rel, "write_csv", f"{label}: archive write", f"{len(wr)} distinct (file, member) pairs on the consistent paths", line=w.lineno)
+                continue
+            zp, member_w = next(iter(wr))
+            sc2 = Scen(X, True, False, written=zp, stem=stem)
+            rd, raised = read_by(sc2)
+            nsc += 1
+            found = {x for x in rd if x[0] == zp}
+            if not found:
+                rep.violation("R09.a", rel, "_check_name", f"{label}: written file is found",
+                              f"write_csv writes {show(zp)} but read_csv opens {[show(x[0]) if x[0] else None for x in rd] or 'nothing'} "
+                              f"({raised} consistent path(s) raise)", line=cn.lineno)
+                continue
+            rep.proved("R09.a", rel, "_check_name", f"{label}: written file is found", show(zp), line=cn.lineno)
+            members_r = {x[1] for x in found}
+            rep.check(members_r == {member_w}, "R09.a", rel, "read_csv", f"{label}: zip member read == member written",
+                      f"written `{show(member_w)}`, read {[show(m_) for m_ in members_r]}", line=r.lineno)
+        except KeyError as ex:
+            rep.undecided("R09.a", rel, "write_csv/read_csv", f"{label}: name algebra", f"outside the path vocabulary: {ex}", line=w.lineno)
+    for X, stem in [(x_, s_) for x_ in (".csv", "") for s_ in STEMS]:
+        for comp in (False, True):
+            sc = Scen(X, comp, True, stem=stem)
+            label = f"stem {show(stem)}, suffix '{X or '<none>'}', archive mode" + (" (compress requested too)" if comp else "")
+            try:
+                wr = written_by(sc)
+                rd, _raised = read_by(sc)
+                nsc += 1
+                okw = len(wr) == 1 and next(iter(wr))[0] is None
+                rep.check(okw and {x[1] for x in rd} == {next(iter(wr))[1]} and all(x[0] is None for x in rd), "R09.a", rel, "read_csv",
+                          f"{label}: member read from the caller's archive == member written to it (no zip file of its own)",
+                          f"written {[(show(a_) if a_ else None, show(b_)) for a_, b_ in wr]}, read {[(show(a_) if a_ else None, show(b_)) for a_, b_ in rd]}", line=r.lineno)
+            except KeyError as ex:
+                rep.undecided("R09.a", rel, "write_csv/read_csv", label, str(ex), line=w.lineno)
+    rep.floor("name scenarios evaluated", nsc, 12)
 
     # ---------------- R09.b header grammar -----------------------------------------------------------------------------------
     from .. import pq
@@ -418,25 +721,98 @@ def run(rep):
     rep.check(okkl, "R09.b", rel, "csv", "key window KEY_LENGTH_MAX covers the writer's own keys (longest: time_generated + ' :')", "", line=kl[0].lineno if kl else 1)
 
     # ---------------- R09.c -------------------------------------------------------------------------------------------------------
-    tc = [n for n in ast.walk(w) if isinstance(n, ast.Call) and isinstance(n.func, ast.Attribute) and n.func.attr == "to_csv"]
-    okc, det = False, "no to_csv call"
-    if tc:
-        kws = {k.arg: ast.unparse(k.value) for k in tc[0].keywords}
-        okc = kws.get("index") == "write_index" and kws.get("float_format") == "float_format" and None in kws and kws[None] == "kwargs" \
-            and dotted(tc[0].func.value) == "data"
-        det = str(kws)
-    rep.check(okc, "R09.c", rel, "write_csv", "data.to_csv(.., index=write_index, float_format=float_format, **kwargs)", det, line=w.lineno)
-    # header before body: stream path
-    pos_head = pos_body = None
-    for i, n in enumerate(ast.walk(w)):
-        if isinstance(n, ast.For) and ast.unparse(n.iter) == "head" and any("write" in ast.unparse(s) for s in n.body):
-            pos_head = n.lineno
-        if isinstance(n, ast.Call) and isinstance(n.func, ast.Attribute) and n.func.attr == "to_csv":
-            pos_body = n.lineno
-    rep.check(pos_head is not None and pos_body is not None and pos_head < pos_body, "R09.c", rel, "write_csv", "plain file: header lines written before the table", "", line=w.lineno)
-    jn = [n for n in ast.walk(w) if isinstance(n, ast.Assign) and isinstance(n.targets[0], ast.Name) and n.targets[0].id == "txt" and "join" in ast.unparse(n.value)]
-    okj = bool(jn) and ast.unparse(jn[0].value).replace(" ", "").replace('"', "'") == "'\\n'.join(head)+'\\n'+txt"
-    rep.check(okj, "R09.c", rel, "write_csv", "zip / archive: header text precedes the table text", ast.unparse(jn[0].value) if jn else "", line=w.lineno)
+    # decided on the evaluated paths of write_csv: the effects of a path are in execution order
+    def is_head(x):
+        return pq.call_named(x, "f:_csvhead") or x == ('sym', 'head')
+
+    NL = ('sym', "'\\n'")
+
+    def line_of_head(x):
+        return x[0] == 'add' and pq.call_named(x[1], "elem") and is_head(x[1][2][0]) and x[2] == NL
+
+    def joined_head(x):
+        return pq.call_named(x, ".join") and x[2][0] == NL and is_head(x[2][1])
+
+    def header_write(e, F):
+        """True: the call effect writes every header line, newline-terminated, to F; None: writes to F something else; False: unrelated"""
+        v = e.val
+        if e.kind != 'call' or v is None or v[0] != 'call' or len(v[2]) < 1:
+            return False
+        if v[1] in ('.write', '.writelines') and len(v[2]) == 2 and v[2][0] == F:
+            a_ = v[2][1]
+            if v[1] == '.write' and e.loops and line_of_head(a_):
+                return True
+            if v[1] == '.writelines' and pq.call_named(a_, "map") and line_of_head(a_[2][0]) and is_head(a_[2][1]):
+                return True
+            if v[1] == '.write' and not e.loops and a_[0] == 'add' and joined_head(a_[1]) and a_[2] == NL:
+                return True
+            return None
+        if v[1] == 'f:print' and pq.kw_of(v, 'file') == F:
+            return None
+        return False
+
+    def concat_parts(x):
+        return concat_parts(x[1]) + concat_parts(x[2]) if x[0] == 'add' else [x]
+
+    def to_csv_ok(v):
+        D = ('sym', 'data')
+        recv = v[2][0] if pq.call_named(v, ".to_csv") else None
+        return recv is not None and (recv == D or (pq.call_named(recv, ".DataFrame") and recv[2][1:] == (D,)) or (pq.call_named(recv, ".to_frame") and recv[2] == (D,))) and pq.kw_of(v, 'index') == ('sym', 'write_index') and \
+            pq.kw_of(v, 'float_format') == ('sym', 'float_format') and pq.kw_of(v, '**') == ('sym', 'kwargs')
+
+    cpe = pq.PEval(ignore_calls=("warnings.warn",))
+    cpe.unroll_const = True
+    cpe.record = {".to_csv"}
+    cpe.inline = helpers
+    cpaths = cpe.run(w)
+    nplain = nmem = 0
+    okopt = okorder = okmem = True
+    det_o = det_m = ""
+    und = []
+    for p_ in cpaths:
+        if p_.how not in ("end", "return"):
+            continue
+        tcs = [(k, e) for k, e in enumerate(p_.effects) if e.kind == 'call' and pq.call_named(e.val, ".to_csv")]
+        plain = consistent(p_, Scen(".csv", False, False))
+        mem = consistent(p_, Scen(".csv", True, False)) or consistent(p_, Scen(".csv", False, True))
+        if not (plain or mem):
+            continue
+        if len(tcs) != 1:
+            okopt = False
+            continue
+        k0, tc = tcs[0]
+        okopt = okopt and to_csv_ok(tc.val)
+        F = tc.val[2][1] if len(tc.val[2]) > 1 else ('sym', 'None')
+        if plain:
+            nplain += 1
+            hw = [(k, header_write(e, F)) for k, e in enumerate(p_.effects)]
+            if any(h is None for _k, h in hw):
+                und.append(f"line {[p_.effects[k].line for k, h in hw if h is None][0]}: a write to the output stream that is not one of the header idioms")
+                continue
+            good = [k for k, h in hw if h is True]
+            if not (len(good) == 1 and good[0] < k0 and pq.call_named(F, "f:open")):
+                okorder = False
+                det_o = f"header writes at effect positions {good}, table at {k0}, stream {_show(F)[:60]}"
+        if mem and not plain:
+            nmem += 1
+            z = [e.val for e in p_.effects if e.kind == 'call' and (pq.call_named(e.val, "f:write2zip") or pq.call_named(e.val, ".writestr"))]
+            if len(z) != 1 or F != ('sym', 'None'):
+                okmem = False
+                det_m = f"{len(z)} archive write(s); to_csv target {_show(F)[:40]}"
+                continue
+            parts = concat_parts(z[0][2][2])
+            if not (len(parts) == 3 and joined_head(parts[0]) and parts[1] == NL and parts[2] == tc.val):
+                okmem = False
+                det_m = _show(z[0][2][2])[:200]
+    for u in sorted(set(und)):
+        rep.undecided("R09.c", rel, "write_csv", "plain file: header lines written before the table", u, line=w.lineno)
+    rep.check(okopt and nplain + nmem >= 2, "R09.c", rel, "write_csv", "data.to_csv(.., index=write_index, float_format=float_format, **kwargs) exactly once on every path",
+              "", line=w.lineno)
+    if not und:
+        rep.check(okorder and nplain >= 1, "R09.c", rel, "write_csv", "plain file: every header line, newline-terminated, is written to the opened file before the table",
+                  det_o, line=w.lineno)
+    rep.check(okmem and nmem >= 1, "R09.c", rel, "write_csv", "zip / archive: stored text = header lines joined by newlines + newline + table text",
+              det_m, line=w.lineno)
     return EXPLANATION
 
 
